@@ -21,6 +21,7 @@ COUNT = {"quick": 6000, "thorough": None}
 BUDGET = {"quick": 45, "thorough": 600}
 CHUNK = 4000
 RULE = (
+    'Kept-object stratum (index%12==7): one EnsembleOptimizer object started 2-3 times at points with the same free and other fixed variables, the request script replayed at every start; variable-transform stratum (index%12==3): a variable scaler with scales and offsets, values referenced at the user-domain image. '
     "even indices: short-script stratum - the request sequence (length 1-4) is the base-A expansion of the stratum counter "
     "over the scenario's alphabet {f, g, c_k, j_k} x {2 pool points}, so all short orders are reached as the counter grows; "
     "odd indices: sampled scripts of length 1-10 over a 3-4 point pool with identical copies. Method, constraints (kinds "
